@@ -120,6 +120,9 @@ def c11(run, ctx):
     # the two loops of try_replacen iterate with find_iter / captures_iter: both must be the same state machine
     fam_iter.iter_state_machine(run, ctx, "<Matches as Iterator>::next", "find_iter")
     fam_iter.iter_state_machine(run, ctx, "<CaptureMatches as Iterator>::next", "captures_iter")
+    # the string-like replacers expand their template through Captures::expand / Expander
+    fns, entries = fam_panic.scope_fns(ctx, "search")
+    fam_panic.run(run, ctx, fns, "expand", restrict=lambda sp: sp.startswith("expand::") or sp in ("Captures::expand",) or sp.startswith("replacer::"))
 
 
 PROPS["C09"] = {"fn": c09, "level": "other",
@@ -182,6 +185,11 @@ def c20(run, ctx):
     fam_vm.state_methods(run, ctx)
     fam_vm.backtrack_cut(run, ctx)
     fam_vm.atomic_arms(run, ctx)
+    # the commit only happens where the compiler emits it
+    import fam_tmpl as _t
+    _t.builder_helpers(run, ctx)
+    _t.compile_conditional(run, ctx)
+    _t.atomic_and_group_arms(run, ctx)
 
 
 PROPS["C20"] = {"fn": c20, "level": "other",
@@ -317,6 +325,7 @@ def c13(run, ctx):
 
 
 def c16(run, ctx):
+    fam_taint.inner_limits(run, ctx)
     fam_enc.printable_rule(run, ctx)
     fam_iter.iterator_impls(run, ctx, only=("SubCaptureMatches", "CaptureNames"))
     fam_expand.id_char_rule(run, ctx)
@@ -328,6 +337,8 @@ def c16(run, ctx):
 
 
 def c17(run, ctx):
+    fam_tmpl.builder_helpers(run, ctx)
+    fam_tmpl.literal_fast_path(run, ctx)
     fam_enc.byte_class_tables(run, ctx)
     fam_enc.escape_rule(run, ctx)
     fam_enc.printable_rule(run, ctx)
@@ -335,6 +346,7 @@ def c17(run, ctx):
 
 
 def c19(run, ctx):
+    fam_enc.printable_rule(run, ctx)
     fam_parse.whitespace_sites(run, ctx)
     fam_expand.id_char_rule(run, ctx)
     fam_parse.group_counting(run, ctx)
@@ -389,6 +401,7 @@ def c15(run, ctx):
     fam_parse.conditional_rule(run, ctx)
     fam_parse.backref_registration(run, ctx)
     fam_enc.any_arms_rule(run, ctx)
+    fam_vm.backtrack_cut(run, ctx)
     fam_xfer.analyzer_rule(run, ctx)
 
 
